@@ -223,6 +223,15 @@ def corpus(ctx):
         out.append(("C06", repr(sh), lambda k, sh=sh: progs.build(c06.make_class(*sh), use_kernel=k)))
     for s in c07.grid(ctx.quick):
         out.append(("C07", repr(s)[:200], lambda k, s=s: progs.build(c07.make_class(s), use_kernel=k)))
+    from checks import c02, c04
+    for sh in c02.shapes_of(True)[::1 if not ctx.quick else 3]:
+        out.append(("C02", repr(sh), lambda k, sh=sh: c02.build(*sh, use_kernel=k)))
+    r4 = random.Random(404)
+    for _ in range(90 if ctx.quick else 900):
+        d, stmts, outfmts = c04.rand_program(r4)
+        out.append(("C04", json.dumps(dict(decl=d, stmts=[[o, c04.name_of(a) if a else None, c04.name_of(b) if b else None, c]
+                                                           for o, a, b, c in stmts]))[:600],
+                    lambda k, d=d, stmts=stmts, outfmts=outfmts: c04.build(d, stmts, outfmts, k)[0]))
     for label, factory in extra_classes():
         out.append(("extra", label, lambda k, factory=factory: _build_obj(factory, k)))
     for label, builder in library_programs():
